@@ -275,7 +275,13 @@ Inductive dop :=
        and calculateEndOffset(b) return: (start byte offset, snapped a, end byte offset, snapped b) *)
 | DGC
 | DReopen
-| DDelChan.
+| DDelChan
+| DWriteFail (w : N) (bs : bytes) (j : nat)
+    (* an I/O fault that does not kill the process: File.Write stored only the first j bytes
+       of bs and returned an error (short write, e.g. disk full) *)
+| DCommitTF (w : N) (e : Z).
+    (* a commit whose index persist failed at its first call: Truncate returned an error
+       (nothing reached the file) *)
 
 Definition fresh (cap : N) (thr : Z) (fs : dirst) : st := mkSt fs [] [] O 0%N [] [] [] cap thr.
 
@@ -314,6 +320,16 @@ Definition do_write (s : st) (w : N) (bs : bytes) : st * outcome :=
          (mkWr (w_start x) (w_file x) (w_off x) (w_len x + n) (w_prev x) (w_fsize x + n) (w_mode x))), ROk)
   end.
 
+(* A short write.  The j bytes are in the append-only file; trackedWriteCloser.Write adds
+   the returned count to its length whether or not File.Write also returned an error
+   (x/go/io/tracked.go), and domain.Writer.Write does the same with fileSize and len, so the
+   writer's tracked position stays the end of the file and the next holder of the pooled
+   handle (tryAcquire -> Reset: offset += len) starts exactly there.  The caller gets the
+   error. *)
+Definition do_writefail (s : st) (w : N) (bs : bytes) (j : nat) : st * outcome :=
+  let '(s', r) := do_write s w (firstn j bs) in
+  (s', match r with ROk => RErr | _ => r end).
+
 Definition do_commit (s : st) (w : N) (e : Z) (hint : N) : st * outcome :=
   match assoc (s_ws s) w with
   | None => (s, RSkip)
@@ -336,6 +352,31 @@ Definition do_commit (s : st) (w : N) (e : Z) (hint : N) : st * outcome :=
             (set_ws s2 (assoc_set (s_ws s2) w
                (mkWr (w_start x) (w_file x) (w_off x) (w_len x) e (w_fsize x) (w_mode x))), ROk)
       | _ => (s, r)
+      end
+  end.
+
+(* Writer.commit when indexPersist's Truncate returns an error: index.insert / index.update
+   have already changed the in-memory pointers, the closure returns the error before its
+   WriteAt, and commit returns it before the rollover and before prevCommit is updated.
+   The pointer stays committed in memory, unpersisted.  (A lazily persisted commit does
+   not touch the file, so there is nothing to fail.) *)
+Definition do_commit_tf (s : st) (w : N) (e : Z) : st * outcome :=
+  match assoc (s_ws s) w with
+  | None => (s, RSkip)
+  | Some x =>
+      match w_mode x with
+      | MLazy => do_commit s w e 0
+      | _ =>
+          if N.eqb (w_len x) 0 then (s, ROk) else
+          let switching := N.leb (real_cap s) (w_fsize x) in
+          if negb (w_prev x =? 0) && negb switching && (e <? w_prev x) then (s, RErr) else
+          if negb (w_start x <? e) then (s, RErr) else
+          let p := mkPtr (w_start x) e (w_file x) (u32 (w_off x)) (u32 (w_len x)) in
+          let '(r, ps, at_) := if w_prev x =? 0 then idx_insert (s_ptrs s) p else idx_update (s_ptrs s) p in
+          match r with
+          | ROk => (set_head (set_ptrs s ps) (Nat.min (s_head s) at_), RErr)
+          | _ => (s, r)
+          end
       end
   end.
 
@@ -553,6 +594,8 @@ Definition step (s : st) (o : dop) : st * list fsop * outcome :=
     | DGC => do_gc s
     | DReopen => do_reopen s
     | DDelChan => do_delchan s
+    | DWriteFail w bs j => do_writefail s w bs j
+    | DCommitTF w e => do_commit_tf s w e
     end in
   (clear_out s', rev (s_out s'), r).
 
